@@ -93,7 +93,15 @@ public:
 
     void bvisit(const HadamardProduct &x)
     {
-        check_vector(x.get_factors());
+        // sym x sym x ... = sym
+        // a non-symmetric factor decides nothing (e.g. I x nonsym = diagonal)
+        for (auto &elt : x.get_factors()) {
+            elt->accept(*this);
+            if (!is_true(is_symmetric_)) {
+                is_symmetric_ = tribool::indeterminate;
+                return;
+            }
+        }
     }
 
     tribool apply(const MatrixExpr &s)
